@@ -6,7 +6,7 @@ CONSTANTS
     Unescape = "quote"
     BearerTail = 0
     XKeys = {"K_hash", "K_cert", "K_subject", "K_dns", "K_chain"}
-    XAtoms = {"c", "COMMA", "SEMI", "EQ", "Q", "SP", "PC", "PQ", "ESC"}
+    XAtoms = {"c", "COMMA", "SEMI", "EQ", "Q", "SP", "PC", "PQ", "ESC", "ESCBS"}
     XLen = 3
     XElems = 2
     XPairs = 2
